@@ -28,7 +28,7 @@ EXIT_OK, EXIT_VIOLATION, EXIT_HARNESS = 0, 1, 2
 class Case:
     def __init__(self, name, fn, max_paths=64, timeout_ms=20000, branch_timeout_ms=4000,
                  portfolio=False, float_modules=(), nsamples=2, conc_rel=1e-6, conc_abs=0.0,
-                 custom=None, budget_s=None, expect_incomplete=False):
+                 custom=None, budget_s=None, expect_incomplete=False, validate=True):
         self.name = name
         self.fn = fn
         self.max_paths = max_paths
@@ -42,6 +42,7 @@ class Case:
         self.custom = custom          # custom(case, tier, seed) -> result dict (engines B / C)
         self.budget_s = budget_s
         self.expect_incomplete = expect_incomplete
+        self.validate = validate
 
 
 # ------------------------------------------------------------------ helpers
@@ -196,7 +197,7 @@ def run_case(case, tier, seed):
         # encoding validation: concrete sample lying on this path
         underdetermined = any(v.split('!')[0] in ('cosd', 'exp', 'log', 'cos', 'sin', 'csqrt_re', 'csqrt_im')
                               for ax in p.axioms for v in sym.term_vars(ax))
-        for CE in conc_runs:
+        for CE in (conc_runs if case.validate else []):
             sv = z3.Solver()
             sv.add(*p.assumptions); sv.add(*p.axioms); sv.add(*p.pc)
             ok = True
